@@ -45,7 +45,8 @@ var rules = map[string]string{
 // list-based model cannot run in reasonable time)
 var extraChecks = map[string]func(r *rng, tier string, res *Result){
 	"C15": c15LargeGarbage,
-	"C02": c02LargeIndex,
+	"C02": func(r *rng, tier string, res *Result) { c02LargeIndex(r, tier, res); c02CloseFaults(r, tier, res) },
+	"C16": c16LargeValueOnMMap,
 	"C03": cBackgroundDuringRecovery,
 	"C04": cBackgroundDuringRecovery,
 }
